@@ -430,7 +430,7 @@ impl Prop for C10 {
         "C10"
     }
     fn phases(&self, tier: Tier) -> Vec<PhaseSpec> {
-        vec![ph("markets: every cross x every quote, orders 1 and 2", tier.pick(8_000, 200_000)), ph("operation histories", tier.pick(2_500, 100_000))]
+        vec![ph("markets: every cross x every quote, orders 1 and 2", tier.pick(8_000, 600_000)), ph("operation histories", tier.pick(2_500, 300_000))]
     }
     fn required_classes(&self, _tier: Tier) -> Vec<String> {
         let mut v: Vec<String> = ["order1:quote-on-path", "order1:quote-off-path", "order2:quote-on-path", "order2:quote-off-path", "second-order:same-quote", "second-order:two-quotes", "quotes:plain", "quotes:with-dual",
